@@ -76,6 +76,8 @@ impl Stats {
         self.sim_clock_micros += info.clock_reads * env.clock.1 % 1_000_000_007;
         self.fault("steal_after", s.steal_after);
         self.fault("steal_before", s.steal_before);
+        self.fault("helped_own_pending_job_while_waiting", s.helped_local);
+        self.fault("helped_stolen_pending_job_while_waiting", s.helped_foreign);
         self.fault("worker_reindex", s.worker_reindex);
         self.fault("injected_top_level", s.injected_top_level);
         self.fault("pool_resize_between_ops", s.width_changes);
